@@ -251,9 +251,9 @@ impl Property for C17 {
         let q = tier == Tier::Quick;
         let n = |a: u64, b: u64| if q { a } else { b };
         vec![
-            Family { name: "runtime_traces", kind: FamilyKind::Random { cases: n(16_000, 300_000), max_len: 800 } },
-            Family { name: "module_traces", kind: FamilyKind::Random { cases: n(4_000, 60_000), max_len: 300 } },
-            Family { name: "compile_lines", kind: FamilyKind::Random { cases: n(8_000, 150_000), max_len: 500 } },
+            Family { name: "runtime_traces", kind: FamilyKind::Random { cases: n(60_000, 600_000), max_len: 800 } },
+            Family { name: "module_traces", kind: FamilyKind::Random { cases: n(15_000, 150_000), max_len: 300 } },
+            Family { name: "compile_lines", kind: FamilyKind::Random { cases: n(30_000, 300_000), max_len: 500 } },
             Family { name: "host_natives", kind: FamilyKind::Random { cases: n(600, 6_000), max_len: 8 } },
         ]
     }
